@@ -27,6 +27,21 @@ let pfail line clause model =
   incr n_pfail;
   if !n_pfail <= 50 then Printf.printf "PFAIL %s || clause=%s model=%s\n" line clause model
 
+(* the property's own physical round-trip clause (error < 1 step): refuted for the unchanged code
+   (Properties/C09.v: C09_roundtrip_physical_refuted); clause and ratio are part of the observation
+   text so that the check can match the known finding *)
+let n_one_step_printed = ref 0
+let max_ratio = ref 0.0
+let float_of_hexbits h = Int64.float_of_bits (Int64.of_string ("0x" ^ h))
+
+let pfail_one_step line ratio model =
+  incr n_over_one_step;
+  if ratio > !max_ratio then max_ratio := ratio;
+  incr n_one_step_printed;
+  if !n_one_step_printed <= 50 then
+    Printf.printf "PFAIL %s clause=roundtrip-physical-one-step ratio=%.17g || clause=roundtrip-physical-one-step ratio=%.17g model=%s\n"
+      line ratio ratio model
+
 let disagree line model =
   incr n_disagree;
   if !n_disagree <= 50 then Printf.printf "DISAGREE %s || model=%s\n" line model
@@ -158,20 +173,29 @@ let handle line =
       let res_i = fbits res in
       let cls = in_class s && not_nan pf in
       if cls then incr n_class;
+      let one_step = ref true and ratio = ref 0.0 in
       let clauses =
         if not cls then []
         else if t = "x" || back = "x" then [ ("saturation", false) ]
         else begin
           let ti = raw_of s t in
           let bi = fbits back in
-          let strict = rt_phys_ok_f (zi 1) (sc s) (off s) (smin s) (smax s) s.s_signed s.s_length pf bi in
-          if not strict then incr n_over_one_step;
+          one_step :=
+            rt_phys_ok_f (zi 1) (sc s) (off s) (smin s) (smax s) s.s_signed s.s_length pf bi;
+          if not !one_step then
+            ratio := abs_float (float_of_hexbits back -. float_of_hexbits p) /. abs_float (float_of_hexbits sc_);
           [ ("saturation", (ios l > 52) || sat_ok_f s.s_signed s.s_length res_i ti);
-            ("roundtrip-physical", rt_phys_ok_f (zi 2) (sc s) (off s) (smin s) (smax s) s.s_signed s.s_length pf bi);
+            ("roundtrip-physical-two-steps",
+             rt_phys_ok_f (zi 2) (sc s) (off s) (smin s) (smax s) s.s_signed s.s_length pf bi);
             ("rule", same_value res_i res_m) ]
         end
       in
-      verdict line ~agree:(res ^ " " ^ t ^ " " ^ back = model) ~model clauses
+      if List.for_all snd clauses && not !one_step then begin
+        List.iter (fun _ -> incr n_clause_evals) clauses;
+        incr n_clause_evals;
+        pfail_one_step line !ratio model
+      end
+      else verdict line ~agree:(res ^ " " ^ t ^ " " ^ back = model) ~model clauses
   | [ "MO"; l; sg; sc_; o; mn; mx; p; q; rp; rq ] ->
       let s = psig l sg sc_ o mn mx in
       let pf = fbits p and qf = fbits q in
@@ -207,7 +231,7 @@ let () =
   let ks = Hashtbl.fold (fun k v acc -> Printf.sprintf "\"%s\":%d" (json_escape k) v :: acc) kinds [] in
   let ss = List.map (fun s -> "\"" ^ json_escape s ^ "\"") (List.rev !samples) in
   Printf.printf
-    "STATS {\"cases\":%d,\"mismatches\":%d,\"distinct_nontrivial\":%d,\"kinds\":{%s},\"samples\":[%s],\"pfail\":%d,\"disagree\":%d,\"in_property_class\":%d,\"clause_evaluations\":%d,\"raw_one_step_low_0p1_u16\":%d,\"physical_roundtrip_over_one_step\":%d}\n"
+    "STATS {\"cases\":%d,\"mismatches\":%d,\"distinct_nontrivial\":%d,\"kinds\":{%s},\"samples\":[%s],\"pfail\":%d,\"disagree\":%d,\"in_property_class\":%d,\"clause_evaluations\":%d,\"raw_one_step_low_0p1_u16\":%d,\"physical_roundtrip_over_one_step\":%d,\"physical_roundtrip_max_ratio\":%.17g}\n"
     !n_cases (!n_mismatch + !n_pfail + !n_disagree) !n_nontrivial
     (String.concat "," (List.sort compare ks))
-    (String.concat "," ss) !n_pfail !n_disagree !n_class !n_clause_evals !n_one_low !n_over_one_step
+    (String.concat "," ss) !n_pfail !n_disagree !n_class !n_clause_evals !n_one_low !n_over_one_step !max_ratio
